@@ -985,6 +985,45 @@ def _outer(a, b):
     return a[:, None] * b[None, :]
 
 
+def _ints(seq):
+    out = []
+    for x in seq:
+        x = _dim(x)
+        if not isinstance(x, int):
+            return None
+        out.append(x)
+    return out
+
+
+def _np_asarray(x, *a, **k):
+    if isinstance(x, (int,)):
+        return x
+    if isinstance(x, (list, tuple)) and _ints(x) is not None:
+        return list(_ints(x))
+    return term('np.asarray', x)
+
+
+def _np_cumsum(x, *a, **k):
+    v = _ints(x) if isinstance(x, (list, tuple)) else None
+    if v is None:
+        return term('np.cumsum', x)
+    out, acc = [], 0
+    for t in v:
+        acc += t
+        out.append(acc)
+    return out
+
+
+def _math_prod(x, *a, **k):
+    v = _ints(x) if isinstance(x, (list, tuple)) else None
+    if v is None:
+        return term('math.prod', x)
+    r = 1
+    for t in v:
+        r *= t
+    return r
+
+
 def _take(a, indices, axis=None, **kw):
     return term('take', a, indices, axis=axis)
 
@@ -1250,8 +1289,8 @@ def make_world_externals(world_ref):
         'abc': NS("abc", abstractmethod=lambda f: f, ABC=ExternalClass('ABC')),
         'warnings': NS("warnings", warn=_print, catch_warnings=lambda *a, **k: None, filterwarnings=_print),
         'operator': NS("operator", getitem=lambda a, b: a[b], add=lambda a, b: a + b),
-        'numpy': NS("numpy", asarray=opaque_fn('np.asarray'), cumsum=opaque_fn('np.cumsum'), ndarray=ExternalClass('np.ndarray')),
-        'math': NS("math", prod=opaque_fn('math.prod')),
+        'numpy': NS("numpy", asarray=_np_asarray, cumsum=_np_cumsum, ndarray=ExternalClass('np.ndarray')),
+        'math': NS("math", prod=_math_prod),
         'copy': NS("copy", deepcopy=lambda x: x),
     }
     builtins = dict(
